@@ -330,13 +330,15 @@ def _disable_unsuitable_resources(
     nonpatchable_resources = {resource for resource in resources
                               if 'patch' not in resource.verbs} - nonwatchable_resources
 
-    # For patching, only react if there are handlers that store a state (i.e. not on-event/index).
-    patching_required = any(selector.select(nonpatchable_resources) for selector in selectors)
+    # For patching, only react to the resources with handlers that store a state (i.e. not on-event/index);
+    # a read-only resource with on-event/index handlers only is served whatever the other resources are.
+    nonpatchable_resources = {resource for selector in selectors
+                              for resource in selector.select(nonpatchable_resources)}
 
     if nonwatchable_resources:
         logger.warning(f"Non-watchable resources will not be served: {nonwatchable_resources}")
         resources.difference_update(nonwatchable_resources)
-    if nonpatchable_resources and patching_required:
+    if nonpatchable_resources:
         logger.warning(f"Non-patchable resources will not be served: {nonpatchable_resources}")
         resources.difference_update(nonpatchable_resources)
 
